@@ -1,4 +1,4 @@
-CONSTANTS MaxFeatures = 3 MinFeatures = 0
+CONSTANTS MaxFeatures = 3 MinFeatures = 0 Avoid = {}
 SPECIFICATION Spec
 INVARIANT Inv_WF
 INVARIANT Inv_Default
